@@ -10,6 +10,7 @@ Units (all text extracted from /repo/hexasm.hpp on every run):
                       the mnemonic's opcode, operand register clear afterwards
   parse_literal       Lexer `unsigned value = strtoul()` narrowing + Parser::parseInteger negation
 """
+import re
 import json
 import os
 import random
@@ -124,6 +125,58 @@ def build_unit(chk):
     return chk.write("c04_unit.c", text)
 
 
+LEX_PRELUDE = r"""
+/* GENERATED on every run from /repo/hexasm.hpp (Lexer::readChar, number arm of Lexer::readToken) */
+#include <stddef.h>
+#include <stdint.h>
+#define LEX_NMAX 64
+static const char *lex_in; static size_t lex_n, lex_pos; static int lex_eof;
+static char lastChar; static size_t currentCharNumber;
+static char num_buf[LEX_NMAX]; static size_t num_len;
+static size_t lex_k;                       /* ghost index: stands for every position of the digit string */
+static size_t strtoul_len; static char strtoul_at_k; static int strtoul_calls;   /* ghost: what strtoul was handed */
+static int lex_isdigit(int c) { return c >= '0' && c <= '9'; }
+static void lex_strtoul(void) { strtoul_calls++; strtoul_len = num_len; if (lex_k < num_len) strtoul_at_k = num_buf[lex_k]; }
+"""
+
+LEX_HARNESS = r"""
+/* the number arm is entered with lastChar = a digit of the source, the stream positioned behind it */
+void h_lex_number(void) {
+  size_t n = nondet_size(); __CPROVER_assume(n >= 1 && n <= LEX_NMAX - 2);
+  char *src = malloc(n); __CPROVER_assume(src != 0);
+  lex_in = src; lex_n = n;
+  size_t start = nondet_size(); __CPROVER_assume(start >= 1 && start <= n);
+  lex_pos = start; lastChar = lex_in[start - 1]; __CPROVER_assume(lex_isdigit(lastChar));
+  lex_k = nondet_size(); strtoul_calls = 0; currentCharNumber = nondet_size();
+  lex_number();
+  __CPROVER_assert(strtoul_calls == 1, "C04: the digit string is converted exactly once");
+  __CPROVER_assert(strtoul_len >= 1 && strtoul_len == lex_pos - start, "C04: strtoul gets as many characters as the lexer consumed (one character of lookahead)");
+  __CPROVER_assert(!(lex_k < strtoul_len) || strtoul_at_k == src[start - 1 + lex_k], "C04: strtoul gets the source digits unchanged, in order");
+  __CPROVER_assert(!(lex_k < strtoul_len) || lex_isdigit(src[start - 1 + lex_k]), "C04: every character handed to strtoul is a decimal digit");
+  __CPROVER_assert(lex_pos == n + 1 || !lex_isdigit(src[lex_pos - 1]), "C04: the digit string is maximal (the literal is not cut short)");
+  __CPROVER_assert(lex_pos == n + 1 ? lastChar == (char)-1 : lastChar == src[lex_pos - 1], "C04: the lookahead character is the first one behind the literal");
+#ifdef CANARY
+  __CPROVER_assert(0, "canary: harness end reachable");
+#endif
+#ifdef COVERGOAL
+  __CPROVER_assert(!(strtoul_len >= 11 && lex_k == 10 && lex_pos <= n), "covergoal: literal of 11+ digits followed by more text");
+#endif
+}
+"""
+
+
+def build_lex_unit(chk):
+    """separate unit: a lexer whose number arm is not in the recognised shape leaves the encoder proofs intact"""
+    text = LEX_PRELUDE + "size_t nondet_size(void);\nvoid *malloc(size_t);\n" + asmx.lexNumber(chk.manifest) + LEX_HARNESS
+    if re.search(r"\bnumber\b|\bfile\b|\bcurrentLine\b", hv.strip_comments(text.split("static int readChar(void)", 1)[1].split("/* the number arm is entered", 1)[0])):
+        raise hv.ExtractionError("Lexer number arm: a use of the string/stream objects is left after rewriting")
+    path = chk.write("c04_lex_unit.c", text)
+    rc, o, e, _ = hv.run(["goto-cc", "-DHEX_CBMC=1", "--function", "h_lex_number", path, "-o", os.path.join(chk.out, "c04_lex_probe.gb")], timeout=120)
+    if rc != 0:
+        raise hv.ExtractionError("Lexer number arm: extracted text is not C: " + (e or o)[-300:].replace("\n", " "))
+    return path
+
+
 def native(chk, unit):
     """build the extracted C natively and the real C++ harness; returns path of the replay exe.
     unit=None: real code only (used when extraction fails)."""
@@ -216,6 +269,24 @@ def main(chk, replay_file):
         J("parse_literal.canary", unit, "h_parse_literal", defines=["CANARY"], kind="canary", checks=[]),
         J("sizes.cover", unit, "h_cover", unwind=9, kind="cover", cover=True, checks=[]),
     ]
+    # --- the lexer's digit-collecting loop (separate unit; an unrecognised shape keeps the assumption instead)
+    lex_note = None
+    try:
+        lex_unit = build_lex_unit(chk)
+        jobs += [
+            J("lex_number.contract", lex_unit, "h_lex_number", loop_contracts=True, object_bits=12, timeout=300,
+              functions=["Lexer::readChar", "Lexer::readToken (number arm)"],
+              note="loop contract on the real digit loop over a symbolic source text of symbolic length (< 62 characters); ghost index instead of a quantifier"),
+            J("lex_number.canary", lex_unit, "h_lex_number", loop_contracts=True, object_bits=12, defines=["CANARY"], kind="canary", checks=[], timeout=300),
+            J("lex_number.cover", lex_unit, "h_lex_number", loop_contracts=True, object_bits=12, defines=["COVERGOAL"], kind="cover", cover_by_assert=True, checks=[], timeout=300),
+        ]
+        chk.functions += ["hexasm::Lexer::readChar", "hexasm::Lexer::readToken (number arm)"]
+        chk.assumptions[3] = ("the literal path: lex_number.contract proves that strtoul receives exactly the maximal digit run of the source text "
+                              "(symbolic text shorter than 62 characters; std::string modelled as an append-only buffer, the istream as an array with a position); "
+                              "that strtoul returns its value is the assumed libc contract; skipping of blanks/comments before the literal is not under contract")
+    except hv.ExtractionError as ex:
+        lex_note = str(ex)
+        chk.warnings.append("lexer number arm not in the recognised shape, lex_number.contract skipped (the assumption stands; boundary literals still run through the real lexer): " + lex_note)
     if tier == "thorough":
         jobs += [
             J("roundtrip.lemma@cvc5", unit, "h_roundtrip", unwind=9, solver=["--cvc5"], timeout=1500, note="second back end"),
